@@ -516,3 +516,72 @@ def writer_reuse_problems(repo: Repo) -> Tuple[List[str], List[str], int]:
                              'path: %s): what an earlier encode that failed half-way wrote is still in it and is returned in front of the '
                              'new bytes' % (fname, buf, 'rewound only' if rew else 'truncated only' if tru else 'neither'))
     return sorted(set(share)), sorted(set(stale)), n_w
+
+
+def log_argument_problems(repo: Repo, fi: FuncInfo) -> List[str]:
+    """Arguments of log statements are evaluated whether or not a handler emits the record, before the statement that follows.
+    Reported: a subscript of a constant table (module-level dict / tuple display, possibly nested) by a key that is not a constant
+    -- ``NAMES[source]`` -- anywhere in the argument expressions, helper functions they call included (three levels): for a key
+    outside the table the log statement raises KeyError / IndexError and what the function was about to do does not happen."""
+    probs: List[str] = []
+
+    def table_of(e, m) -> Optional[ast.AST]:
+        """the display a subscripted expression denotes when it is a module-level constant table (or an entry of one)"""
+        if isinstance(e, ast.Name):
+            vals = m.assigns.get(e.id)
+            if vals and len(vals) == 1 and isinstance(vals[0], (ast.Dict, ast.Tuple, ast.List)) and not repo.table_writers(m.name, e.id):
+                return vals[0]
+            return None
+        if isinstance(e, ast.Subscript) and not isinstance(e.slice, ast.Slice):
+            outer = table_of(e.value, m)
+            if isinstance(outer, ast.Dict) and outer.values and all(isinstance(v, (ast.Dict, ast.Tuple, ast.List)) for v in outer.values):
+                return outer.values[0]       # a row of a table of tables
+        return None
+
+    def scan(expr, m, where, depth, seen):
+        for n in ast.walk(expr):
+            if isinstance(n, ast.Subscript) and isinstance(n.ctx, ast.Load) and not isinstance(n.slice, ast.Slice) \
+                    and not isinstance(n.slice, ast.Constant):
+                t = table_of(n.value, m)
+                if t is not None:
+                    keys = ', '.join(norm(k) for k in (t.keys if isinstance(t, ast.Dict) else [])[:6]) if isinstance(t, ast.Dict) \
+                        else '0..%d' % (len(t.elts) - 1)
+                    probs.append('%s: the log statement at line %d evaluates %s (%s): for a value outside {%s} it raises %s before the '
+                                 'statement that follows it runs' % (fi.key, where, norm(n), 'through ' + ' -> '.join(seen) if seen else 'directly',
+                                                                      keys, 'KeyError' if isinstance(t, ast.Dict) else 'IndexError'))
+            if isinstance(n, ast.Call) and depth < 3:
+                try:
+                    r = repo.resolve_expr(n.func, m) if not isinstance(n.func, ast.Name) else repo.resolve_name(n.func.id, m)
+                except Exception:
+                    r = None
+                from .srcmodel import FuncRef
+                if isinstance(r, FuncRef):
+                    try:
+                        g = repo.func(r.module, r.qualname)
+                    except Exception:
+                        g = None
+                    if g is not None and g.parent is None and g.key not in seen:
+                        for st in body_without_docstring(g.node):
+                            scan(st, g.module, where, depth + 1, seen + [g.key])
+    for n in ast.walk(fi.node):
+        if isinstance(n, ast.Call) and repo.is_logging_call(n, fi.module):
+            for a in list(n.args) + [k.value for k in n.keywords]:
+                scan(a, fi.module, n.lineno, 0, [])
+    return sorted(set(probs))
+
+
+def log_rule(repo: Repo, rep, prop: str, rule: str):
+    rep.rule(rule, 'log statements cannot fail: no argument of a log statement (helpers it calls included) subscripts a constant table by '
+             'a value that may lie outside the table -- the arguments are evaluated before the statement that follows, whether or not the '
+             'record is emitted', 1)
+    probs = []
+    n_f = n_l = 0
+    for modname in MEMO_SCOPE[prop]:
+        for fi in repo.all_functions():
+            if fi.module.name != modname:
+                continue
+            n_f += 1
+            n_l += sum(1 for n in ast.walk(fi.node) if isinstance(n, ast.Call) and repo.is_logging_call(n, fi.module))
+            probs += log_argument_problems(repo, fi)
+    rep.check(not probs, rule, '%s:log-arguments' % '+'.join(MEMO_SCOPE[prop]), '', '%d functions, %d log statements' % (n_f, n_l),
+              '; '.join(sorted(set(probs))[:6]))
